@@ -11,13 +11,15 @@ MANIFEST = {
             "text : (UFL signature, options) -> text hash.  TLC checks the intended design exhaustively (2 processes, all "
             "histories up to the event bound) and refutes three designs that leak hidden state (seed, counter, cache) - the "
             "constant-switched negative controls.  spec -> code: TLC enumerates every history of depth 2 (all seeds x "
-            "templates x routes x options) and depth 3 (seed 0, every pair of junk/generate events) and simulates long "
+            "templates x routes {0, 1, 9} x options) and depth 3 (seed 0, every pair of junk/generate events) and simulates long "
             "3-process histories over the real alphabet; a covering subset (every template x options in every seed, after "
             "every junk kind, after other compilations, repeated, via another construction route) is lived by real "
             "interpreters started with PYTHONHASHSEED = the Spawn's seed, junk really created with ufl/basix, Generate really "
             "calling ffcx.compiler.compile_ufl_objects.  code -> spec: all recorded events form one behaviour that TLC "
             "validates against HistoryTrace.tla (History's own actions driven by the recorded values); a registry write "
-            "that is rejected is the violation, reported with a unified diff of the two texts.  Templates: P1/P2 "
+            "that is rejected is the violation, reported with a unified diff of the two texts and keyed by the part of the "
+            "hidden state in which the two observations differ (seed / counters / cache / id-order).  In every run one "
+            "recorded sha1 is corrupted in a copy of the trace and TLC must reject it there.  Templates: P1/P2 "
             "mass+stiffness, mixed element with >= 3 sub-elements, two meshes, prism (two kernels per facet integral), "
             "several quadrature degrees in one form, coefficients+constants, interior facets, quadrilateral/hexahedron, "
             "H(div)/H(curl), manifold, P2 geometry, expressions; thorough adds every demo/*.py loaded as ffcx.main does.",
@@ -25,7 +27,8 @@ MANIFEST = {
     "note": "Trusted: the projections in harness/histdrv/worker.py (sha1 of the returned texts, UFL signatures as the "
             "notion of same input, UFL counters).  Bounded: the seeds {0, 1, 4242, random...}, the template corpus, "
             "histories of <= 60 events.  Two thirds of the process histories run in forks of a per-seed zygote that has "
-            "only imported ffcx, the rest in brand-new interpreters.",
+            "only imported ffcx, the rest in brand-new interpreters.  Known finding text:id-order:two_mesh_tri: UFL orders "
+            "product operands by repr() (decimal mesh ids as strings), outside /repo.",
 }
 
 
